@@ -628,7 +628,7 @@ def r_splitarith(prog, tier):
         raise Unrecognised('parse_split_specification: %d stores into the part list (at least 4 expected)' % nstores, partial=obs)
     raises = [n for n in cfg.eval_nodes() if n.kind == 'stmt' and isinstance(n.ast, ast.Raise)]
     for r in raises:
-        ok = r.ast.exc is not None and unparse(r.ast.exc).startswith('ValueError(')
+        ok = r.ast.exc is not None and prog.raises_kind(r.ast.exc, f, 'ValueError')
         obs.append(Ob('R-SPLITARITH', f.fq, 'a bad specification is rejected with ValueError', ok, unparse(r.ast)[:60],
                       construct='split-raise:' + unparse(r.ast)[:40], line=r.lineno, nontrivial=False))
     # more trees demanded than exist -> raise
@@ -644,7 +644,8 @@ def r_splitarith(prog, tier):
                 big = True
             if fa[0] == 'cmp' and fa[3].endswith(' - ' + A.size) and fa[1] == '0' and fa[2] == '<':
                 big = True
-    if big is None and not [r for r in raises if not r.loops]:
+    helpers_raise = prog.raising_calls(f)
+    if big is None and not [r for r in raises if not r.loops] and not helpers_raise:
         big = False           # positive: after the parts are read nothing raises at all
     obs.append(Ob('R-SPLITARITH', f.fq, 'a specification demanding more trees than exist is rejected', big,
                   'raise under `sum > size`' if big else 'no raise under `%s < <sum of parts>`' % A.size,
@@ -654,7 +655,7 @@ def r_splitarith(prog, tier):
     for r in raises:
         if r.loops and len([a for a in cfg.assumes_at(r.id) if not a.pol]) >= 3:
             chain_ok = True
-    if chain_ok is None and not [r for r in raises if r.loops]:
+    if chain_ok is None and not [r for r in raises if r.loops] and not helpers_raise:
         chain_ok = False      # positive: nothing inside the loop over the parts raises
     obs.append(Ob('R-SPLITARITH', f.fq, 'an unknown kind of part is rejected', chain_ok,
                   'the chain %/#/rest ends in raise' if chain_ok else 'the chain over part kinds has no final raise',
@@ -827,8 +828,17 @@ def r_state(prog, tier):
         dels = [n for n in cfg.eval_nodes() if n.kind == 'stmt' and isinstance(n.ast, ast.Delete)]
         dt = [n for n in dels if unparse(n.ast) == 'del %s.terminals' % nm]
         df = [n for n in dels if unparse(n.ast) == 'del %s.fn' % nm]
+        def _same_block(a_, b_):
+            # two statements of one block (a `finally` clause, say) with nothing but deletions between them run together
+            for blk in ast.walk(f.node):
+                for fld in ('body', 'orelse', 'finalbody'):
+                    lst = getattr(blk, fld, None)
+                    if isinstance(lst, list) and a_ in lst and b_ in lst:
+                        i_, j_ = sorted((lst.index(a_), lst.index(b_)))
+                        return all(isinstance(x_, ast.Delete) for x_ in lst[i_:j_ + 1])
+            return False
         for n in dt:
-            ok = any(cfg.always_with(n.id, m.id) and cfg.always_with(m.id, n.id) for m in df)
+            ok = any((cfg.always_with(n.id, m.id) and cfg.always_with(m.id, n.id)) or _same_block(n.ast, m.ast) for m in df)
             obs.append(Ob('R-STATE/G3', f.fq, 'dropping the cached table also drops the cached file name', ok,
                           'paired with `del %s.fn`' % nm if ok else 'the file name stays cached: the next call with the '
                           'same file skips loading and finds no table', construct='g3-del', line=n.lineno))
@@ -880,6 +890,10 @@ def r_state(prog, tier):
                     if suffixes and suffixes <= set(SET_FILE_OK[f.fq]):
                         ok = True
                         why_ok = 'SET table: %s files %s' % (f.fq, sorted(suffixes)) + ' - ' + SET_FILE_OK[f.fq][sorted(suffixes)[0]]
+                    elif not suffixes:
+                        ok = None
+                        why_ok = 'which file the stream(s) %s belong to is not visible in a plain `with open(...) as`: the %s ' \
+                                 'file may be written in set order, the others not' % (sorted(targets), sorted(SET_FILE_OK[f.fq]))
                 obs.append(Ob('R-STATE/G5', f.fq, 'output lines are not written in set (hash) order: `for ... in %s`'
                               % unparse(it), ok, why_ok if ok else
                               'iteration over a set decides the order of written lines', construct='g5:' + f.fq,
